@@ -29,16 +29,22 @@ fn run_instance(e: &Value) -> Value {
     match r {
         Ok(t) => {
             let nodata: Vec<bool> = t.iter().map(|f| f[0] == NODATA).collect();
-            let limbs: Vec<Vec<[i64; 2]>> = t
+            let limbs: Vec<Vec<[i64; 4]>> = t
                 .iter()
                 .map(|f| {
                     f.iter()
                         .map(|x| {
                             if *x == NODATA || !x.is_finite() {
-                                [0, 0]
+                                [0, 0, 0, 0]
                             } else {
-                                let q = (x * 1e6).round() as i64;
-                                [q.div_euclid(1000), q.rem_euclid(1000)]
+                                // value x 1000 = l1 + l2/1e3 + l3/1e6 + l4/1e9 exactly to 1e-12: the integer part and the
+                                // fraction are converted separately (x * 1e12 would not be exact for |x| > 9e3)
+                                let i = x.floor();
+                                let f = ((x - i) * 1e12).round() as i64; // 0 ..= 1e12, the subtraction is exact
+                                let q = i as i64 * 1_000_000_000_000 + f; // x * 1e12, |x| < 9e6
+                                let l1 = q.div_euclid(1_000_000_000);
+                                let r = q.rem_euclid(1_000_000_000);
+                                [l1, r / 1_000_000, (r / 1000) % 1000, r % 1000]
                             }
                         })
                         .collect()
@@ -100,7 +106,7 @@ pub fn record(seed: u64, n: usize, max_states: usize, out_path: &str) {
             "dur": (0..ns).map(|_| 1 + rng.below(8)).collect::<Vec<_>>(),
             "msd8": msd8, "thr8": 4, "wins": wins, "vlen": vlen,
             "mean8": (0..ns).map(|_| (0..vlen * nw).map(|m| if m < vlen { rng.range(-40, 40) } else { rng.range(-6, 6) }).collect::<Vec<_>>()).collect::<Vec<_>>(),
-            "prec4": (0..ns).map(|_| (0..vlen * nw).map(|_| *rng.pick(&[1i64, 2, 4, 8, 16])).collect::<Vec<_>>()).collect::<Vec<_>>(),
+            "prec4": (0..ns).map(|_| (0..vlen * nw).map(|_| *rng.pick(&[1i64, 2, 3, 4, 5, 6, 8, 12, 16])).collect::<Vec<_>>()).collect::<Vec<_>>(),
         });
         run_instance(&e)
     });
